@@ -71,6 +71,10 @@ class OrderClient(Config):
                 return False
             if isinstance(elt, ast.Subscript) and isinstance(elt.slice, ast.Constant) and elt.slice.value == 0 and ".integrand" in it:
                 return False  # (CellType, QuadratureRule) keys
+            tgt = expr.generators[0].target
+            if isinstance(elt, ast.Name) and isinstance(tgt, ast.Tuple) and tgt.elts and isinstance(tgt.elts[0], ast.Name) and tgt.elts[0].id == elt.id \
+                    and ".integrand" in it:
+                return False  # the same first component, taken by unpacking `for cell_type, _ in ....integrand.keys()`
             return True
         if isinstance(expr, ast.Name) and expr.id in ("facet_types", "ridge_types"):
             return False  # lists of basix.CellType
